@@ -1,5 +1,5 @@
 (* C01 - interface files parse to a tree that mirrors the source exactly. *)
-From Coq Require Import String Ascii List Bool Arith.
+From Coq Require Import String Ascii List Bool Arith Lia.
 From Wrap Require Import Base.Str Syntax.Ast Inst.Model Parse.Peg Parse.Build Parse.Spec Parse.RoundTrip.
 From Wrap Require gen.Grammar.
 Import ListNotations.
@@ -48,4 +48,25 @@ Example C01_type_roundtrip_nonvacuous :
 Proof.
   repeat split; try (vm_compute; tauto); try discriminate; try reflexivity;
     try (repeat constructor; reflexivity); try (vm_compute; intuition discriminate).
+Qed.
+
+(* Argument lists: any number of arguments (none included), each a well-formed type of any depth and an identifier,
+   rendered with one blank before every token and "," between arguments, followed by ")": the ArgumentList rule
+   consumes exactly the list and Argument / ArgumentList.from_parse_result rebuild exactly the arguments, in order. *)
+Theorem C01_arglist_roundtrip : forall args, Forall wf_arg args -> forall p X f, args_fuel args <= f ->
+  exists v p', interp spec_grammar f (GRef "ArgumentList") {| pk := p; rest := render (args_toks args) (sp rparen X) |}
+               = Match [([], v)] {| pk := p'; rest := sp rparen X |}
+               /\ b_args v = Ok (map mk_arg args).
+Proof. exact arglist_roundtrip. Qed.
+Print Assumptions C01_arglist_roundtrip.
+
+Example C01_arglist_nonvacuous :
+  Forall wf_arg [(sample_type, "x"); (TPlain (tn [] "double") false PNone true, "tol_1")] /\
+  string_of (render (args_toks [(TPlain (tn ["gtsam"] "Pose3") true PRef false, "p"); (TPlain (tn [] "int") false PNone true, "n")]) [])
+  = " const gtsam :: Pose3 & p , int n".
+Proof.
+  split; [|reflexivity]. destruct C01_type_roundtrip_nonvacuous as [W [D _]].
+  constructor; [split; [exact W | split; [cbn [fst]; rewrite D; vm_compute; lia | reflexivity]]|].
+  constructor; [|constructor].
+  split; [split; [reflexivity | split; [reflexivity | vm_compute; tauto]] | split; [vm_compute; lia | reflexivity]].
 Qed.
